@@ -8,6 +8,8 @@ done={
        "note":"Trusted: Coq kernel + vm_compute, std++; hand-written model (tie = correspondence check, not proof); in-memory ledger stub of the harness; the underlying ledger does not change during one invocation; range queries are outside the property."},
 "C02":{"text":"Refinement theorem: for every sequence of nonces the 50 s window machine (model of setNonce) decides exactly like a machine remembering every accepted nonce; corollaries at-most-once (per sender and system-wide over any interleaving of senders and of both routes), consumption independent of the body outcome, sender independence, format/stale/in-window rules. Tied to the code by (i) setNonce called directly through a verif-tagged export on exhaustive boundary sequences and (ii) signed requests through real batchExecute/executeTasks on a simulated peer, both evaluated against model and specification inside Coq.",
        "note":"Trusted: Coq kernel + vm_compute, std++; hand-written model; simulated peer, scripted ACL and signing code of the harness. Not verified: the legacy non-protobuf branch of checkNonce; immediate (NBTx) methods do not check nonces (excluded by the property)."},
+"C19":{"text":"Theorems for all amounts and configurations: closed form of the fee (share rounded down, rate conversion, floor, cap), bounds and monotonicity, setFee guard, exact settlement of the three legs of a transfer (with coinciding parties) and of buy/buy-back at amount*rate/10^8 within limits, failure leaves the state unchanged, balances never negative over any history. Tied to the code by signed operations through real batches on the base token with amounts at the break points of each configuration; error class and the complete balance projection after every operation, token metadata and predictFee are compared with the model and checked against the closed forms inside Coq.",
+       "note":"Trusted: Coq kernel + vm_compute, std++; hand-written model; simulated peer/ACL/signing and ledger projection of the harness. Per-transaction atomicity is C04's subject (the model returns the old state on error). User ids come from the scripted ACL."},
 }
 checks=[];na=[]
 for p in props:
